@@ -83,6 +83,7 @@ Fixpoint bind_i (v : Z) (c : caexpr) : caexpr :=
   | CConst q => CConst q
   | CSym SLoopVar => CConst (z2q v)
   | CSym (SGather x k) => CSym (SElem x ((v + k) - 1))
+  | CSym (SGatherA x a b) => CSym (SElem x ((a * v + b) - 1))
   | CSym s => CSym s
   | CNeg a => CNeg (bind_i v a)
   | CFabs a => CFabs (bind_i v a)
